@@ -25,6 +25,7 @@ from exabgp.bgp.message.update.nlri.label import Label
 from exabgp.bgp.message.update.nlri.nlri import NLRI
 from exabgp.bgp.message.update.nlri.settings import INETSettings
 from exabgp.bgp.message.update.attribute import Attribute, AttributeCollection
+from exabgp.bgp.message.update.collection import validate_announce_nlri
 
 from exabgp.rib.route import Route
 
@@ -360,6 +361,10 @@ class ParseStaticRoute(Section):
 
             # Create immutable NLRI from settings
             nlri = nlri_class.from_settings(settings)
+            # what the wire format generation would refuse (no nexthop, labels or RD) is refused here
+            error = validate_announce_nlri(nlri, settings.nexthop) if self.parser.tokeniser.announce else None
+            if error:
+                return self.error.set(error)
             route = Route(nlri, attributes, nexthop=settings.nexthop)
             self.scope.append_route(route)
 
